@@ -59,6 +59,18 @@ type statC struct {
 	K        T0
 }
 
+// a NAMED (not embedded) field of the marker type is an ordinary field: statD is a plain
+// type, statE a marker struct with a value named "s"
+type statD struct {
+	S am.Struct
+	K T0
+}
+type statE struct {
+	am.Struct
+	S am.Struct
+	K T0 `argmapper:",typeOnly"`
+}
+
 var _ = statA{}.hidden
 var _ = statB{}.secret
 var _ = statB{}.z
@@ -66,6 +78,8 @@ var _ = statB{}.z
 var extraTy = map[int]reflect.Type{
 	20:   reflect.TypeOf(plainStruct{}),
 	23:   reflect.TypeOf(Embedded{}),
+	25:   reflect.TypeOf(am.Struct{}),
+	26:   reflect.TypeOf(statD{}),
 	24:   reflect.TypeOf((*EmbIface)(nil)).Elem(),
 	21:   reflect.PtrTo(reflect.TypeOf(T0(0))),
 	22:   reflect.TypeOf(""),
@@ -170,6 +184,9 @@ func randMarkerStruct(r *rng) reflect.Type {
 	if r.chance(10) {
 		return reflect.TypeOf(statC{})
 	}
+	if r.chance(8) {
+		return reflect.TypeOf(statE{})
+	}
 	if r.chance(12) {
 		if r.chance(50) {
 			return localParamsA()
@@ -199,7 +216,7 @@ func randMarkerStruct(r *rng) reflect.Type {
 }
 
 func randSigList(r *rng, st stats, allowErrAnywhere bool) []reflect.Type {
-	plain := []int{0, 1, 2, 10, 20, 21, 22}
+	plain := []int{0, 1, 2, 10, 20, 21, 22, 26} // 26: a struct with a NAMED field of the marker type is a plain type
 	switch r.intn(6) {
 	case 0:
 		return nil
@@ -238,7 +255,8 @@ func genSig(r *rng, idx int, st stats) caseOut {
 	switch {
 	case r.chance(6):
 		isfunc = false
-		f = []interface{}{nil, 42, "x", plainStruct{}, &plainStruct{}}[r.intn(5)]
+		fn := func(a T0) T1 { return T1(a) }
+		f = []interface{}{nil, 42, "x", plainStruct{}, &plainStruct{}, &fn}[r.intn(6)]
 	default:
 		ins = randSigList(r, st, true)
 		outs = randSigList(r, st, true)
